@@ -75,6 +75,9 @@ type glTarget struct {
 	// blockReach: for a block of a handler (no results) whose statements may `return`: falling out of the block
 	// appends this entry to the trace and returns — "the handler got past these statements"
 	blockReach string
+	// ignore: calls (printed function) that are dropped like logging calls — only for calls whose sole effect is on
+	// values that nothing but log statements read (e.g. `copy(tmp[:], …)` feeding a Debugf)
+	ignore []string
 }
 
 type glTypeCase struct {
@@ -217,6 +220,11 @@ var glIgnoredCallPrefixes = []string{"logger.", "log.", "state.logger.", "s.logg
 
 func (c *glCtx) ignorable(call *ast.CallExpr) bool {
 	s := c.p.str(call.Fun)
+	for _, f := range c.t.ignore {
+		if s == f {
+			return true
+		}
+	}
 	for _, pre := range glIgnoredCallPrefixes {
 		if strings.HasPrefix(s, pre) {
 			return true
@@ -285,7 +293,8 @@ func (c *glCtx) expr(e ast.Expr) (string, string) {
 		c.fail(x, "identifier %s is neither a local nor a constant of the package", x.Name)
 	case *ast.SelectorExpr:
 		if id, ok := x.X.(*ast.Ident); ok {
-			if _, isLocal := c.lookup(id.Name); !isLocal {
+			_, isPath := c.t.paths[id.Name] // a free variable of a block, configured as a path to a binder
+			if _, isLocal := c.lookup(id.Name); !isLocal && !isPath {
 				if dir, ok := c.importDir(id.Name); ok {
 					q := c.e.pkg(dir)
 					if ce, ok := q.consts[x.Sel.Name]; ok {
@@ -865,6 +874,10 @@ func (c *glCtx) zero(n ast.Node, goType string) string {
 	if strings.HasPrefix(goType, "*") {
 		return "none"
 	}
+	if strings.HasPrefix(goType, "[") {
+		// a fixed-size array: opaque (the subset has no indexing; it can only be handed to ignored calls)
+		return "()"
+	}
 	c.fail(n, "zero value of type %s", goType)
 	return ""
 }
@@ -1171,7 +1184,51 @@ func (c *glCtx) ifStmt(x *ast.IfStmt, rest []ast.Stmt, d int) string {
 		defer c.pop()
 		for _, n := range declaredNames([]ast.Stmt{x.Init}) {
 			if _, outer := c.lookup(n); outer && len(rest) > 0 {
-				c.fail(x, "if-init redeclares %s", n)
+				// `if n := …; cond {…}` where n shadows an outer variable that the statements after the if may still
+				// use: inside the whole if statement every `n` is the new variable, so it is renamed there (the
+				// identifiers are restored afterwards: the syntax tree is shared with the other extractors)
+				fresh := n + "_s"
+				for {
+					if _, taken := c.lookup(fresh); !taken {
+						break
+					}
+					fresh += "s"
+				}
+				var touched []*ast.Ident
+				ast.Inspect(x, func(m ast.Node) bool {
+					switch y := m.(type) {
+					case *ast.SelectorExpr:
+						ast.Inspect(y.X, func(k ast.Node) bool {
+							if id, ok := k.(*ast.Ident); ok && id.Name == n {
+								id.Name = fresh
+								touched = append(touched, id)
+							}
+							return true
+						})
+						return false
+					case *ast.KeyValueExpr:
+						ast.Inspect(y.Value, func(k ast.Node) bool {
+							if id, ok := k.(*ast.Ident); ok && id.Name == n {
+								id.Name = fresh
+								touched = append(touched, id)
+							}
+							return true
+						})
+						return false
+					case *ast.Ident:
+						if y.Name == n {
+							y.Name = fresh
+							touched = append(touched, y)
+						}
+					}
+					return true
+				})
+				orig := n
+				defer func() {
+					for _, id := range touched {
+						id.Name = orig
+					}
+				}()
 			}
 		}
 		y := *x
